@@ -145,6 +145,14 @@ type prover struct {
 	nilErr      map[string]bool // error terms established nil on the path
 	nonNil      map[string]bool
 	pendingDisj []disj
+	pendingTab  []tabFact
+}
+
+// tabFact: term is tab[idx] of a package-level constant table; settled once the index is known exactly.
+type tabFact struct {
+	term string
+	tab  *constTab
+	idx  lin
 }
 
 const zero = ""
@@ -233,6 +241,15 @@ func (pr *prover) linOf(v ssa.Value) lin {
 				v = x.X
 				continue
 			}
+			// any other integer conversion keeps the value when the operand is known to lie in the target's range
+			if lossyIntConv(x) && depth < 6 {
+				if lo, hi, ok := intRange(x.Type()); ok {
+					a := pr.linOf(x.X)
+					if pr.g.entailsLE(zero, a.base, a.off-lo) && pr.g.entailsLE(a.base, zero, hi-a.off) {
+						return lin{a.base, a.off + off}
+					}
+				}
+			}
 		case *ssa.ChangeType:
 			v = x.X
 			continue
@@ -262,6 +279,44 @@ func (pr *prover) linOf(v ssa.Value) lin {
 	term := pr.t.Term(v, pr.ps)
 	pr.intrinsic(term, v)
 	return lin{term, off}
+}
+
+// intRange: the values of an integer type (int and uint are taken as 64 bits wide; uint64's upper end as 2^63−1).
+func intRange(t types.Type) (lo, hi int64, ok bool) {
+	b, isB := t.Underlying().(*types.Basic)
+	if !isB || b.Info()&types.IsInteger == 0 {
+		return 0, 0, false
+	}
+	switch b.Kind() {
+	case types.Int8:
+		return -128, 127, true
+	case types.Int16:
+		return -32768, 32767, true
+	case types.Int32:
+		return -1 << 31, 1<<31 - 1, true
+	case types.Uint8:
+		return 0, 255, true
+	case types.Uint16:
+		return 0, 65535, true
+	case types.Uint32:
+		return 0, 1<<32 - 1, true
+	case types.Uint, types.Uint64, types.Uintptr:
+		return 0, 1 << 62, true
+	}
+	return -1 << 62, 1 << 62, true // (bounds kept clear of overflow in the difference constraints)
+}
+
+// lossyIntConv: an integer-to-integer conversion that does not keep every value (see safeIntConv for what does).
+func lossyIntConv(c *ssa.Convert) bool {
+	from, ok1 := c.X.Type().Underlying().(*types.Basic)
+	to, ok2 := c.Type().Underlying().(*types.Basic)
+	if !ok1 || !ok2 || from.Info()&types.IsInteger == 0 || to.Info()&types.IsInteger == 0 {
+		return false
+	}
+	if _, isConst := c.X.(*ssa.Const); isConst {
+		return false
+	}
+	return !safeIntConv(c)
 }
 
 func safeIntConv(c *ssa.Convert) bool {
@@ -319,6 +374,20 @@ func (pr *prover) intrinsic(term string, v ssa.Value) {
 	}
 	// field invariants and element summaries
 	pr.structuralFacts(term, v)
+	if ct, idx, ok := pr.p.constTableLoad(v); ok {
+		lo, hi := int64(0), int64(0)
+		for _, e := range ct.vals {
+			if e < lo {
+				lo = e
+			}
+			if e > hi {
+				hi = e
+			}
+		}
+		pr.g.addLE(zero, term, -lo)
+		pr.g.addLE(term, zero, hi)
+		pr.pendingTab = append(pr.pendingTab, tabFact{term, ct, pr.linOf(idx)})
+	}
 	switch x := v.(type) {
 	case *ssa.Phi:
 		// monotone counter: every edge is a constant or this phi plus a non-negative amount
@@ -608,8 +677,7 @@ func (pr *prover) elementFacts(term string, slice ssa.Value) {
 		pr.g.addLE(term, m.base, m.off)
 	}
 	if prm, ok := slice.(*ssa.Parameter); ok {
-		key := pr.p.FnKey(prm.Parent())
-		for _, f := range preconds[key] {
+		for _, f := range precondsOf(pr.p, prm.Parent()) {
 			if f.kind == "elems>=" && prm.Parent().Params[f.param] == prm {
 				pr.g.addLE(zero, term, -f.n)
 			}
@@ -671,6 +739,35 @@ var preconds = map[string][]pfact{
 	"sqlittle.indexedSelectEqNonRowid": {{kind: "flag", param: 1, field: "WithoutRowid"}},
 }
 
+// precondsOf: the preconditions of fn with the parameter positions of the confirmed signature carried over to fn's
+// current one (parameters reordered or added: the k-th parameter of a type stays the k-th parameter of that type).
+func precondsOf(p *Program, fn *ssa.Function) []pfact {
+	if fn == nil {
+		return nil
+	}
+	facts := preconds[p.FnKey(fn)]
+	if len(facts) == 0 {
+		return nil
+	}
+	m := p.ParamMap(fn)
+	if m == nil {
+		return facts
+	}
+	out := make([]pfact, len(facts))
+	for i, f := range facts {
+		if j, ok := m[f.param]; ok {
+			f.param = j
+		}
+		if f.kind == "len>=len" {
+			if j, ok := m[f.other]; ok {
+				f.other = j
+			}
+		}
+		out[i] = f
+	}
+	return out
+}
+
 // assumedPre: preconditions that are not proven at call sites, with the reason (listed in the evidence).
 var assumedPre = map[string]string{
 	"sqlittle.setKey": "cross-component agreement: `indexes` is pkColumns' result (positions found in, or appended to, the index definition: ≥ 0) and `key` was built with one entry per primary-key column, as was `indexes`",
@@ -695,6 +792,17 @@ func (pr *prover) lenFacts(lenTerm string, x ssa.Value) {
 				if s.High == nil && lo.base == zero {
 					pr.g.addLE(lenTerm, zero, n-lo.off)
 					pr.g.addLE(zero, lenTerm, lo.off-n)
+				}
+				if s.High != nil {
+					// arr[lo:hi]: len = hi − lo
+					hi := pr.linOf(s.High)
+					if lo.base == zero {
+						pr.g.addLE(lenTerm, hi.base, hi.off-lo.off)
+						pr.g.addLE(hi.base, lenTerm, lo.off-hi.off)
+					} else if hi.base == lo.base {
+						pr.g.addLE(lenTerm, zero, hi.off-lo.off)
+						pr.g.addLE(zero, lenTerm, lo.off-hi.off)
+					}
 				}
 				return
 			}
@@ -728,6 +836,12 @@ func (pr *prover) lenFacts(lenTerm string, x ssa.Value) {
 			} else {
 				pr.g.addLE(lenTerm, hi.base, hi.off) // len ≤ hi when lo ≥ 0
 			}
+		}
+	case *ssa.UnOp:
+		// an element of a package-level list of string constants
+		if st := pr.p.strTableElem(s); st != nil {
+			pr.g.addLE(zero, lenTerm, -st.minLen)
+			pr.g.addLE(lenTerm, zero, st.maxLen)
 		}
 	case *ssa.MakeSlice:
 		n := pr.linOf(s.Len)
@@ -842,6 +956,14 @@ func (pr *prover) calleeLenPost(lenTerm string, call *ssa.Call, idx int) {
 			pr.g.addLE(lenTerm, n.base, n.off)
 			pr.g.addLE(n.base, lenTerm, -n.off)
 		})
+	case (name == "strings.ToLower" || name == "strings.ToUpper") && len(cc.Args) == 1:
+		// library fact: case mapping maps rune to rune and drops none, so a non-empty argument gives a non-empty
+		// result; string(r) of a rune is never empty (an invalid rune encodes U+FFFD)
+		if cv, ok := pr.ps.Resolve(cc.Args[0]).(*ssa.Convert); ok {
+			if b, ok := cv.X.Type().Underlying().(*types.Basic); ok && b.Info()&types.IsInteger != 0 {
+				pr.g.addLE(zero, lenTerm, -1)
+			}
+		}
 	case name == "sql.readOp":
 		// provable: returns s (len 1), s[:2] or s[:1]
 		pr.g.addLE(zero, lenTerm, -1)
@@ -928,6 +1050,21 @@ func (pr *prover) applyDisj() {
 			if pr.g.entailsLE(d.y, d.x, -d.c) && !pr.g.entailsLE(d.y, d.x, -d.c-1) {
 				pr.g.addLE(d.y, d.x, -d.c-1)
 				changed = true
+			}
+		}
+		for _, tf := range pr.pendingTab {
+			up, ok1 := pr.g.bound(tf.idx.base, zero) // idx.base ≤ up
+			dn, ok2 := pr.g.bound(zero, tf.idx.base) // idx.base ≥ −dn
+			if ok1 && ok2 && up == -dn {
+				k := up + tf.idx.off
+				if k >= 0 && k < tf.tab.n {
+					e := tf.tab.vals[k]
+					if !pr.g.entailsLE(tf.term, zero, e) || !pr.g.entailsLE(zero, tf.term, -e) {
+						pr.g.addLE(tf.term, zero, e)
+						pr.g.addLE(zero, tf.term, -e)
+						changed = true
+					}
+				}
 			}
 		}
 		for _, m := range pr.pendingImp {
@@ -1035,10 +1172,14 @@ func (pr *prover) assumeLit(l Lit) {
 		defer func() { pr.ps = saved }()
 	}
 	if call, ok := l.Cond.(*ssa.Call); ok {
-		if cal := call.Call.StaticCallee(); cal != nil && isLibFunc(cal, "strings", "HasPrefix") && ((l.C == "true") == l.Val) {
+		if cal := call.Call.StaticCallee(); cal != nil && (isLibFunc(cal, "strings", "HasPrefix") || isLibFunc(cal, "strings", "HasSuffix")) && ((l.C == "true") == l.Val) {
+			lt, _, _ := pr.lenTermOf(call.Call.Args[0])
 			if pre, ok := constString(call.Call.Args[1]); ok {
-				lt, _, _ := pr.lenTermOf(call.Call.Args[0])
 				pr.g.addLE(zero, lt, -int64(len(pre)))
+			} else {
+				// s has the prefix: it is at least as long
+				lp, _, _ := pr.lenTermOf(call.Call.Args[1])
+				pr.g.addLE(lp, lt, 0)
 			}
 		}
 		return
@@ -1142,7 +1283,7 @@ func (pr *prover) assumePre(lp *LPath) {
 			pr.g.addLE(zero, nterm, 0)
 		}
 	}
-	for _, f := range preconds[pr.p.FnKey(fn)] {
+	for _, f := range precondsOf(pr.p, fn) {
 		if f.param >= len(fn.Params) {
 			continue
 		}
@@ -1201,7 +1342,7 @@ func (pr *prover) provePre(call ssa.CallInstruction, f pfact) (bool, string) {
 		}
 		// or the caller has the same precondition on the same value
 		caller := call.Parent()
-		for _, cf := range preconds[pr.p.FnKey(caller)] {
+		for _, cf := range precondsOf(pr.p, caller) {
 			if cf.kind == "flag" && cf.field == f.field && cf.param < len(caller.Params) && pr.ps.Resolve(a) == ssa.Value(caller.Params[cf.param]) {
 				return true, ""
 			}
@@ -1381,7 +1522,6 @@ func (pr *prover) counterField(fv *types.Var) bool {
 
 var panicSuppress = map[string]string{
 	"(*driver.Rows).Next index#2":          "database/sql passes len(dest) = len(Columns()), and a row has one value per requested column (DRV-7: the same column list is used for both)",
-	"db.init$2$1 index#1":                  "strings.ToLower of a one-rune string is never empty",
 	"db.compare panic#1":                   "type-switch default: Record elements and typed keys are in the five storage classes (REC-table, ROWMAP, KEY check every producer; db.Key is documented to hold only those)",
 	"db.compare panic#2":                   "as panic#1",
 	"db.compare panic#3":                   "as panic#1",
@@ -1621,7 +1761,7 @@ func (pr *prover) discharge(s panicSite) (bool, string) {
 		name := calleeName(pr.p, x)
 		var facts []pfact
 		if cal := x.Call.StaticCallee(); cal != nil {
-			facts = preconds[pr.p.FnKey(cal)]
+			facts = precondsOf(pr.p, cal)
 		} else if x.Call.IsInvoke() && x.Call.Method.Name() == "page" {
 			facts = preconds["(*db.filePager).page"]
 		}
@@ -1694,7 +1834,7 @@ func (pr *prover) dischargePanic(x *ssa.Panic) (bool, string) {
 	}
 	// guarded by a flag precondition of the function: the panic sits on the edge that contradicts it
 	fn := x.Parent()
-	for _, f := range preconds[pr.p.FnKey(fn)] {
+	for _, f := range precondsOf(pr.p, fn) {
 		if f.kind != "flag" {
 			continue
 		}
